@@ -45,6 +45,10 @@ def worker(job):
         kw["fixed_effects"] = rng.choice([{}, {"county_classification": "all"}])
     if pi == "bootstrap":
         kw["office"] = rng.choice(["S", "P", "S", "H"])      # mostly offices that have a national summary
+        if kw["office"] != "H":
+            # enough contests for the summary (a count of contests) to react to a change of the contest-level distributions
+            kw["n_states"] = rng.choice([6, 8, 10])
+            kw["n_units"] = kw["n_states"] * rng.randint(14, 20)
     final = gen.gen_case(rng, pi_method=pi, n_unexpected=rng.choice([0, 1]), **kw)
     if pi == "bootstrap" and "postal_code" not in final["params"]["aggregates"]:
         final["params"]["aggregates"].append("postal_code")
